@@ -896,7 +896,8 @@ RULES = [
     ("R03.3", r03_3, 5),
     ("R03.4", r03_4, 2),
     ("R03.5", r03_5, 3),
-    ("R03.6", r03_6, 3),
+    # R03.6 (what the evaluation-limit stop conditions compute) is C05's obligation (R05.9): a limit condition that answers
+    # early or late changes when run() returns, not the exactness of the counts nor the hardness of the cutoff budget
     ("R03.7", r03_7, 1),
     ("R03.8", r03_8, 1),
     ("R03.9", r03_9, 1),
